@@ -131,6 +131,6 @@ def seqterm(world, v, elem):
 def same_object(a, b):
     """python identity `a is b` that also works between the pre-state snapshot (`old`) and the post-state: symbolic records carry
     their origin through snapshots, real objects copied for `old` remember the live object they were copied from"""
-    oa = a.origin if isinstance(a, Rec) else getattr(a, "_vf_origin", a)
-    ob = b.origin if isinstance(b, Rec) else getattr(b, "_vf_origin", b)
+    oa = a.origin if isinstance(a, (Rec, PyList)) else getattr(a, "_vf_origin", a)
+    ob = b.origin if isinstance(b, (Rec, PyList)) else getattr(b, "_vf_origin", b)
     return oa is ob
